@@ -94,6 +94,20 @@ pub fn run_c07(cfg: &Cfg) -> Report {
         }
         cx.rep.evaluations += count;
         cx.rep.observations += count;
+        // negative control: a corrupted copy of an accepted encoding must be rejected by the decoder
+        if count > 0 {
+            let n0 = lo as usize + (bi as usize % 97);
+            if n0 < lim {
+                let mut enc = hook(n0, incl);
+                let k = bi as usize % enc.len();
+                enc[k] ^= 1 << (bi % 8);
+                let total = if incl { n0 + (1..=4).find(|w| n0 + w <= CAP[w - 1]).unwrap() } else { n0 };
+                cx.rep.neg_controls += 1;
+                if check_pkglen(&enc, total, if incl { Some(n0) } else { None }).is_ok() {
+                    cx.rep.inconclusive(format!("negative control: corrupted PkgLength {} accepted for {}", hex(&enc), n0));
+                }
+            }
+        }
         cx.rep.cov_n(if incl { "hook_inclusive_lengths" } else { "hook_exclusive_lengths" }, count);
         cx.rep.distinct(&(incl, bi));
         if bi == 0 && incl {
@@ -321,11 +335,13 @@ pub fn run_c08(cfg: &Cfg) -> Report {
                 cx.violation(m, obj(vec![("value", J::Int(v as i128))]));
                 return;
             }
+            cx.rep.distinct(&v);
         }
-        cx.rep.distinct(&("u16block", cx.idx));
         cx.rep.cov_n("values_u16_exhaustive", 256);
         if cx.idx == 1 {
-            cx.sample(|| obj(vec![("value", 0x100u64.into()), ("carriers", "u16,u32,u64,usize".into()), ("expected", "0b0001".into())]));
+            let mut sk = Small::default();
+            0x100u16.to_aml_bytes(&mut sk);
+            cx.sample(|| obj(vec![("value", 0x100u64.into()), ("carriers", "u16,u32,u64,usize".into()), ("emitted_by_u16", hex(&sk.buf[..sk.n.min(16)]).into())]));
         }
     }));
     // boundaries, single bits, byte fills
@@ -360,6 +376,11 @@ pub fn run_c08(cfg: &Cfg) -> Report {
             return;
         }
         cx.rep.distinct(&v);
+        if cx.idx % 97 == 5 {
+            let mut sk = Small::default();
+            v.to_aml_bytes(&mut sk);
+            cx.sample(|| obj(vec![("value", format!("{:#x}", v).into()), ("carrier_mask", (carriers as u64).into()), ("emitted_by_u64", hex(&sk.buf[..sk.n.min(16)]).into())]));
+        }
     }));
     // random u64 / u32
     let nrand = cfg.scaled(if thorough { 1_000_000_000 } else { 2_000_000 });
@@ -372,6 +393,9 @@ pub fn run_c08(cfg: &Cfg) -> Report {
             if let Err((m, _)) = int_case(v, carriers) {
                 cx.violation(m, obj(vec![("value", J::Int(v as i128))]));
                 return;
+            }
+            if !thorough {
+                cx.rep.distinct(&v);
             }
         }
         cx.rep.evaluations += per;
@@ -609,6 +633,19 @@ fn res_case(cx: &mut CaseCtx, r: &Res) -> bool {
     if declared != got.len() {
         cx.violation(format!("resource descriptor {:?}: length field describes {} bytes, {} emitted", r, declared, got.len()), obj(vec![("emitted", hex(&got).into())]));
         return false;
+    }
+    if cx.idx % 64 == 0 {
+        // negative control: bump the descriptor's own length field; the walker must no longer tile
+        let mut p = template_payload(std::slice::from_ref(r));
+        if p[0] & 0x80 != 0 {
+            p[1] = p[1].wrapping_add(1);
+        } else {
+            p[0] = (p[0] & 0xf8) | ((p[0] & 7) + 1) % 8;
+        }
+        cx.rep.neg_controls += 1;
+        if walk_descriptors(&p).map(|w| w.len() == 2).unwrap_or(false) {
+            cx.rep.inconclusive(format!("negative control: descriptor walker accepts a corrupted length field in {}", hex(&p)));
+        }
     }
     true
 }
@@ -861,6 +898,14 @@ pub fn run_c16(cfg: &Cfg) -> Report {
         match eisa_case(&id) {
             Ok(()) => cx.rep.distinct(&id),
             Err(e) => cx.violation(e, J::Null),
+        }
+        if cx.idx % 16 == 0 {
+            // negative control: a corrupted constant must not decompress to the same id
+            let v = crate::amlref::term::eisa_value(std::str::from_utf8(&id).unwrap()) ^ (1 << (cx.idx % 32));
+            cx.rep.neg_controls += 1;
+            if eisa_decompress(v) == id {
+                cx.rep.inconclusive("negative control: corrupted EISA constant decompresses to the original id".to_string());
+            }
         }
         // lower-case hex digits are the same id
         if ci >= 78 {
